@@ -1067,11 +1067,11 @@ class Gen:
     select after the array index (struct field / packed index / slice) on either side, and exposes the results."""
     rng = s.rng
     u = f'{s.uid}_{s.nsig}'
-    P = rng.choice([1, 2, 3, 4]); K = rng.choice([x for x in (1, 2, 3, 4) if x != P]); single = rng.random() < 0.25
+    P = rng.choice([1, 2, 3]); K = rng.choice([x for x in (1, 2, 3) if x != P]); single = rng.random() < 0.25
     if single: K = 1
     w = rng.choice([4, 8, 8, 16])
     # a small struct with a vector field, a second vector and (sometimes) a packed array field
-    use_struct = rng.random() < 0.6
+    use_struct = rng.random() < 0.6 and not s.ys_safe      # struct-typed ports of sub-components hit the known Yosys struct-form defects
     sn = f'LP{u}'
     sfields = [('hi', ('bits', rng.choice([4, 8]))), ('lo', ('bits', rng.choice([2, 4])))]
     if rng.random() < 0.5: sfields.insert(rng.randrange(3), ('vv', ('list', rng.choice([2, 3]), ('bits', rng.choice([2, 4])))))
@@ -1080,11 +1080,12 @@ class Gen:
       ST = StructT(sn, sfields); s.feat('structural:struct-port-array')
     # interface with port arrays and scalars; member names chosen so that every sorted order occurs
     use_ifc = rng.random() < 0.65
-    L = rng.choice([x for x in (1, 2, 3, 4) if x != K] or [2]); J = rng.choice([x for x in (1, 2, 3) if x != L] or [2])
-    names = rng.choice([('a_in', 'a_out', 'z_req', 'z_resp'), ('z_in', 'z_out', 'a_req', 'a_resp'), ('m_in', 'm_out', 'm_req', 'm_resp')])
-    sc_in, sc_out, ar_in, ar_out = names
+    L = rng.choice([x for x in (1, 2, 3) if x != K] or [2]); J = rng.choice([x for x in (1, 2) if x != L] or [2])
+    # member names with random first letters: members are visited sorted by name, so every order of array / scalar occurs
+    pf = [rng.choice('abmz') for _ in range(4)]
+    sc_in, sc_out, ar_in, ar_out = f'{pf[0]}_tin', f'{pf[1]}_tout', f'{pf[2]}_req', f'{pf[3]}_resp'
     scalar_too = rng.random() < 0.7
-    nested = use_ifc and s.yosys and rng.random() < 0.5
+    nested = use_ifc and s.yosys and rng.random() < 0.65
     if use_ifc:
       inner = [f'class CI{u}( Interface ):', '  def construct( s ):',
                f'    s.{ar_in} = [ InPort( {w} ) for _ in range({L}) ]', f'    s.{ar_out} = [ OutPort( {w} ) for _ in range({L}) ]']
@@ -1353,6 +1354,22 @@ class DPoly:
   tag: Bits2
   pts: [ DPt3, DPt3 ]
   last: DPt3
+class DBundle( Interface ):
+  def construct( s ):
+    s.lane_in = [ InPort( 8 ) for _ in range(3) ]; s.lane_out = [ OutPort( 8 ) for _ in range(3) ]
+    s.tag_in = InPort( 8 ); s.tag_out = OutPort( 8 )
+class DChannel( Interface ):
+  def construct( s ):
+    s.bundle = DBundle(); s.sel_in = InPort( 4 ); s.sel_out = OutPort( 4 )
+class DBankIfc( Interface ):
+  def construct( s ):
+    s.req = [ InPort( 8 ) for _ in range(3) ]; s.resp = [ OutPort( 8 ) for _ in range(3) ]
+class DBank( Component ):
+  def construct( s ):
+    s.port = [ DBankIfc() for _ in range(2) ]
+    for j in range(2):
+      for i in range(3):
+        s.port[j].resp[i] //= s.port[j].req[ (i + 1) % 3 ]
 class DIfc( Interface ):
   def construct( s ):
     s.msg = InPort( 8 ); s.val = InPort()
@@ -1411,5 +1428,7 @@ class {cls}( Component ):
     ('D_zext_varslice', mk('D_zext_varslice', 's.x = InPort( 16 ); s.e = InPort( 4 ); s.o = OutPort( 8 )', 's.o @= zext( s.x[ s.e : s.e + 4 ], 8 )'), 'control', [(r's\.e$', 12)]),
     ('D_struct_array', mk('D_struct_array', 's.in_ = [ InPort( DRec ) for _ in range(2) ]; s.o = OutPort( 3 ); s.o2 = OutPort( 4 )', 's.o @= s.in_[0].b[2] ^ s.in_[1].b[2] ^ s.in_[1].b[0]\n      s.o2 @= s.in_[0].a + s.in_[1].a').replace('from pymtl3 import *', DPT), 'control'),
     ('D_poly_port',   mk('D_poly_port', 's.poly = InPort( DPoly ); s.o = OutPort( 3 )', 's.o @= s.poly.pts[0].x ^ s.poly.pts[1].x ^ s.poly.last.x').replace('from pymtl3 import *', DPT), 'control'),
+    ('D_nested_ifc_mixed', mk('D_nested_ifc_mixed', 's.chan = DChannel(); s.o = OutPort( 8 )', 's.o @= s.chan.bundle.lane_in[0] ^ s.chan.bundle.tag_in').replace('    @update', '    for i in range(3):\n      s.chan.bundle.lane_out[i] //= s.chan.bundle.lane_in[ (i + 1) % 3 ]\n    s.chan.bundle.tag_out //= s.chan.bundle.tag_in\n    s.chan.sel_out //= s.chan.sel_in\n    @update').replace('from pymtl3 import *', DPT), 'control'),
+    ('D_subcomp_ifc_arrays', mk('D_subcomp_ifc_arrays', 's.in_ = [ InPort( 8 ) for _ in range(6) ]; s.out = [ OutPort( 8 ) for _ in range(6) ]; s.o = OutPort( 8 )', 's.o @= s.in_[0]').replace('    @update', '    s.bank = DBank()\n    for j in range(2):\n      for i in range(3):\n        s.bank.port[j].req[i] //= s.in_[ j * 3 + i ]\n        s.out[ j * 3 + i ] //= s.bank.port[j].resp[i]\n    @update').replace('from pymtl3 import *', DPT), 'control'),
     ('D_red_sig',     mk('D_red_sig',     io + 's.o = OutPort( 1 )', 's.o @= reduce_xor( s.w ) & reduce_or( s.a ) | reduce_and( s.b )'), 'control'),
   ]
